@@ -194,6 +194,11 @@ func msgBodyExempt(o Obj, c Cfg) bool {
 // prefix; after the first definitive one, every longer prefix must give the
 // same verdict, offset and view.
 func stableCheck(w *core.Worker, c *Case, from int) (definitiveAt int) {
+	return stableCheckAt(w, c, from, nil)
+}
+
+// stableCheckAt judges only the listed (ascending) prefix lengths when prefixes != nil.
+func stableCheckAt(w *core.Worker, c *Case, from int, prefixes []int) (definitiveAt int) {
 	s := sc(w)
 	definitiveAt = -1
 	if c.P.EndInput(c.Cfg) {
@@ -203,7 +208,19 @@ func stableCheck(w *core.Worker, c *Case, from int) (definitiveAt int) {
 	var n0 int
 	var exempt bool
 	var op view.MsgOpt
+	pi := 0
 	for cut := from; cut <= len(c.Buf); cut++ {
+		if prefixes != nil {
+			if pi >= len(prefixes) {
+				break
+			}
+			cut = prefixes[pi]
+			pi++
+			if cut < from || cut > len(c.Buf) {
+				cut = from - 1
+				continue
+			}
+		}
 		F := c.P.New(c.Cfg)
 		n, e, pan, _ := safeCall(F, c.Buf[:cut], c.Start)
 		w.Eval(1)
